@@ -16,7 +16,6 @@ package main
 
 import (
 	"bytes"
-	"encoding/json"
 	"errors"
 	"fmt"
 	"io"
@@ -36,6 +35,7 @@ import (
 	"rivaas.dev/router"
 	rroute "rivaas.dev/router/route"
 	"rivaas.dev/router/version"
+	"rivaas.dev/validation"
 
 	"verif/harness/hx"
 )
@@ -70,6 +70,11 @@ var table = []routeDef{
 	{method: "GET", pattern: "/c/:n", hid: 9, kind: "param", intParam: "n"},
 	{method: "GET", pattern: tenParams, hid: 10, kind: "param"},
 	{method: "GET", pattern: "/star*", hid: 16, kind: "treestatic"},
+	// a catch-all next to a parameter branch below the same prefix: the tree always descends into the parameter branch
+	// (static > param > wildcard, no backtracking), so everything but /f/<id>/meta is a miss
+	{method: "GET", pattern: "/f/*", hid: 30, kind: "wild"},
+	{method: "GET", pattern: "/f/:id/meta", hid: 31, kind: "param"},
+	{method: "GET", pattern: "/f/:id/rev/:rev/diff", hid: 32, kind: "param"},
 	// K03a witness pair: the more specific candidate fails on its last constraint after it stored :i in the map
 	{method: "GET", pattern: "/m/s/:a/:b/:c/:d/:e/:f/:g/:h/:i/:j", hid: 17, kind: "param", intParam: "j", compiledOnly: true},
 	{method: "GET", pattern: "/m/:z/:a/:b/:c/:d/:e/:f/:g/:h/:x/:y", hid: 18, kind: "param", compiledOnly: true},
@@ -161,6 +166,16 @@ func matchTable(c Cfg, method, path, ver string) (routeDef, []kv, bool) {
 		}
 		cands = append(cands, cand{d, params, score, ok})
 	}
+	if ver == "" && strings.HasPrefix(path, "/f/") {
+		// the parameter sibling shadows the catch-all: only the parameter routes below /f are reachable
+		var keep []cand
+		for _, cd := range cands {
+			if cd.d.kind != "wild" {
+				keep = append(keep, cd)
+			}
+		}
+		cands = keep
+	}
 	if len(cands) == 0 {
 		return routeDef{}, nil, false
 	}
@@ -207,6 +222,8 @@ type Req struct {
 	Nested int  `json:",omitempty"` // >0: the handler of this request serves request H[Nested] before it returns (overlapping requests, deterministically)
 	Inner  bool `json:",omitempty"` // served from inside another request's handler, not by the top-level loop
 	Panic  bool `json:",omitempty"` // the handler panics (no recovery middleware) after its dirtying program
+	// app: a second Bind with validation — "P": WithPartial + WithPresence(only plan), "T": WithPartial (presence from the own body)
+	Bind2 string `json:",omitempty"`
 }
 
 type Case struct {
@@ -305,7 +322,7 @@ var (
 type probePanic struct{} // what a panicking probe handler panics with (expected, not a framework panic)
 
 // body of every probe handler, router and app level
-func handle(c *router.Context, hid int, presence int, bind func() string) {
+func handle(c *router.Context, hid int, presence int, bind func(q Req) string) {
 	req := c.Request
 	if req == nil {
 		mu.Lock()
@@ -344,7 +361,7 @@ func handle(c *router.Context, hid int, presence int, bind func() string) {
 	if bind != nil {
 		// app level: what this handler binds (after a before-handler bound the same body and returned, and after any
 		// nested request bound its own) must be this request's own payload
-		bound := bind()
+		bound := bind(q)
 		mu.Lock()
 		v.acc += "|bind:" + bound
 		mu.Unlock()
@@ -398,16 +415,35 @@ type payload struct {
 
 func boundString(p payload, failed bool) string { return fmt.Sprintf("%d,%s,%v", p.A, p.B, failed) }
 
+type accountPatch struct {
+	Email *string `json:"email" validate:"omitempty,email"`
+	Plan  *string `json:"plan" validate:"omitempty,oneof=free pro"`
+}
+
+// doBind is what the main app handler binds: the payload, then (Bind2) a validated partial bind.
+func doBind(c *app.Context, q Req) string {
+	if c.Request == nil || c.Request.Body == nil || c.Request.ContentLength <= 0 {
+		return ""
+	}
+	var p payload
+	err := c.BindOnly(&p)
+	out := boundString(p, err != nil)
+	switch q.Bind2 {
+	case "P":
+		var ap accountPatch
+		err := c.Bind(&ap, app.WithPartial(), app.WithPresence(validation.PresenceMap{"plan": true}))
+		out += fmt.Sprintf(",P:%v", err != nil)
+	case "T":
+		var ap accountPatch
+		err := c.Bind(&ap, app.WithPartial())
+		out += fmt.Sprintf(",T:%v", err != nil)
+	}
+	return out
+}
+
 func appHandler(hid int) app.HandlerFunc {
 	return func(c *app.Context) {
-		handle(c.Context, hid, len(c.Presence()), func() string {
-			if c.Request != nil && c.Request.Body != nil && c.Request.ContentLength > 0 {
-				var p payload
-				err := c.BindOnly(&p)
-				return boundString(p, err != nil)
-			}
-			return ""
-		})
+		handle(c.Context, hid, len(c.Presence()), func(q Req) string { return doBind(c, q) })
 	}
 }
 
@@ -420,14 +456,22 @@ func appBefore(c *app.Context) {
 	}
 }
 
-// expectedBind: what a handler must bind for this request (reference, computed from the case).
+// expectedBind: what the handler binds for this request on a brand-new app (nothing pooled, no other request).
 func expectedBind(q Req) string {
 	if q.Body == "" {
 		return ""
 	}
-	var p payload
-	err := json.Unmarshal([]byte(q.Body), &p)
-	return boundString(p, err != nil)
+	a, err := app.New(app.WithServiceName("c03ref"), app.WithServiceVersion("v0.0.1"), app.WithoutDefaultMiddleware())
+	if err != nil {
+		fmt.Fprintln(os.Stderr, "app.New:", err)
+		os.Exit(1)
+	}
+	res := ""
+	a.Router().GET("/ref", a.WrapHandler(func(c *app.Context) { res = doBind(c, q) }))
+	req := httptest.NewRequest("GET", "http://h.test/ref", bytes.NewReader([]byte(q.Body)))
+	req.Header.Set("Content-Type", "application/json")
+	a.Router().ServeHTTP(httptest.NewRecorder(), req)
+	return res
 }
 
 func routerOpts(c Cfg) []router.Option {
@@ -1005,6 +1049,7 @@ func genReq(r *hx.Rand, c Cfg) Req {
 		{"405-ten-params", hx.Pick(r, []string{"POST", "PUT", "DELETE"}), tenPath(r, "/p", 10)},
 		{"404", hx.Pick(r, []string{"GET", "POST", "DELETE"}), hx.Pick(r, []string{"/nope", "/d", "/c/abc", tenPath(r, "/p", 9)})},
 		{"k03a", "GET", tenPath(r, "/m/s", 9) + "/zz"},
+		{"catchall-vs-param", "GET", "/f/" + v(r) + hx.Pick(r, []string{"/meta", "/raw", "", "/rev/" + v(r) + "/diff", "/rev/" + v(r) + "/blame", "/rev"})},
 		{"non-origin-target", hx.Pick(r, []string{"OPTIONS", "GET"}), hx.Pick(r, []string{"*", "relative", "host.example:443"})},
 		{"ver-static", "GET", "/vs"},
 		{"ver-param", "GET", "/vd/" + v(r)},
@@ -1014,7 +1059,9 @@ func genReq(r *hx.Rand, c Cfg) Req {
 	x := hx.Pick(r, gs)
 	q := Req{Method: x.method, Path: x.path, Ver: ver, Accept: hx.Pick(r, accepts), Dirty: genDirty(r), Class: x.class}
 	if c.App && r.Chance(2, 3) {
-		q.Body = hx.Pick(r, []string{`{"a":1,"b":"x"}`, `{"a":2,"b":"y"}`, `{"a":9,"b":"z"}`, `{"a":2}`, `{"b":"y","c":{"d":1}}`})
+		q.Body = hx.Pick(r, []string{`{"a":1,"b":"x"}`, `{"a":2,"b":"y"}`, `{"a":9,"b":"z"}`, `{"a":2}`, `{"b":"y","c":{"d":1}}`,
+			`{"email":"not-an-email","plan":"platinum"}`, `{"email":"bob@example.com"}`, `{"plan":"pro","email":"x"}`})
+		q.Bind2 = hx.Pick(r, []string{"", "", "P", "T", "T"})
 	}
 	return q
 }
@@ -1079,6 +1126,18 @@ func witnesses() []Case {
 			{Method: "GET", Path: "/d/7", Body: `{"a":1,"b":"x"}`, Nested: 1, Class: "param"},
 			{Method: "GET", Path: "/d/8", Body: `{"a":9,"b":"z"}`, Inner: true, Class: "param"},
 			{Method: "GET", Path: "/s/a", Body: `{"a":2,"b":"y"}`, Class: "static"},
+		}},
+		// app: a Bind with an explicit presence map, then a partial Bind of another request (its own body decides)
+		{C: Cfg{App: true}, H: []Req{
+			{Method: "GET", Path: "/d/1", Body: `{"plan":"pro","email":"x"}`, Bind2: "P", Class: "param"},
+			{Method: "GET", Path: "/d/2", Body: `{"email":"not-an-email","plan":"platinum"}`, Bind2: "T", Class: "param"},
+			{Method: "GET", Path: "/s/a", Body: `{"email":"bob@example.com"}`, Bind2: "T", Class: "static"},
+		}},
+		{C: Cfg{}, H: []Req{
+			{Method: "GET", Path: "/f/7/raw", Class: "catchall-vs-param"},
+			{Method: "GET", Path: "/f/7/meta", Class: "catchall-vs-param"},
+			{Method: "GET", Path: "/f/7/rev/3/blame", Class: "catchall-vs-param"},
+			{Method: "GET", Path: "/s/a", Class: "static"},
 		}},
 		{C: Cfg{App: true, Versioning: true}, H: []Req{
 			{Method: "GET", Path: "/d/7", Body: `{"a":1,"b":"x"}`, Dirty: d, Class: "param"},
